@@ -330,6 +330,9 @@ class Executor:
         elif e.id in ('True', 'False', 'None'): yield p, Const({'True': True, 'False': False, 'None': None}[e.id])
         elif e.id in self.module_consts and isinstance(self.module_consts[e.id], ast.Constant):
             yield p, Const(self.module_consts[e.id].value)
+        elif e.id in self.module_consts and isinstance(self.module_consts[e.id], (ast.List, ast.Tuple, ast.Set)) and \
+                all(isinstance(x, ast.Constant) for x in self.module_consts[e.id].elts):
+            yield p, Val('const', x=ast.literal_eval(self.module_consts[e.id]))     # module-level literal collection, re-read from source
         else: yield p, Val('opaque', x=e.id)
 
     def ev_Attribute(self, e, p):
@@ -343,7 +346,9 @@ class Executor:
                 yield from self.getattr_val(o2, e.attr, p2, self.site(e), src)
 
     def getattr_val(self, o, attr, p, site, src='?'):
-        if o.sort == 'rec' and attr in o.x: yield p, o.x[attr]
+        if (o.sort, attr) in self.registry.attrs:
+            yield from self.registry.attrs[(o.sort, attr)](self, o, p, site)
+        elif o.sort == 'rec' and attr in o.x: yield p, o.x[attr]
         elif o.sort == 'map':      # attribute access on a STIX object == key access (AttributeError if absent)
             present, value = o.x['present'](attr), o.x['value'](attr)
             q = p.fork(z3.Not(present))
